@@ -192,16 +192,8 @@ func (v VLA) Marshal() ([]byte, error) { // nolint: cyclop
 }
 
 func commonSLBMValues(slMBs []uint8) uint8 {
-	var common uint8
-	for i := 0; i < len(slMBs); i++ {
-		if slMBs[i] == 0 {
-			continue
-		}
-		if common == 0 {
-			common = slMBs[i]
-
-			continue
-		}
+	common := slMBs[0]
+	for i := 1; i < len(slMBs); i++ {
 		if slMBs[i] != common {
 			return 0
 		}
